@@ -8,5 +8,7 @@ CLAIMED = {
          "note": NOTE, "technique": "must-yield analysis on structured CFG with symbolic guards + affine normal forms (ast)"},
  "C15": {"category": "other", "text": "Normal-form and exhaustiveness analysis: " + STRUCT % "C15" + ". Rules: certificate time scales are the step of interval k, opcode dispatch exhaustive with raising default, comparison operators relayed faithfully, exact check of the literal power->Bernstein table, placement for every (k,l) in every method, paired substitution lists.",
          "note": NOTE, "technique": "polynomial normal form of expressions + branch exhaustiveness (ast)"},
+ "C04": {"category": "other", "text": "Placement-domain analysis: " + STRUCT % "C04" + ". Rules: grid-kind x method coverage (placed or rejected), placement sites with skip conditions evaluated as truth tables, evaluator/index/expression pass-through, IndexError-only drop discipline, shift semantics of next/prev/offset instantiated over nodes x offsets, before/after complementarity, subject_to classification, inventory of every NLP constraint site, store-once/replay-once in OptiWrapper, slot tables of the four evaluators.",
+         "note": NOTE, "technique": "loop-context + slot-table extraction, truth tables of extracted guards, constraint-site inventory (ast)"},
 }
 NOT_APPLICABLE = {}
